@@ -941,7 +941,85 @@ impl rustc_driver::Callbacks for Cb {
                 adts.push(obj(&[("path", esc(&tcx.def_path_str(did))), ("dpath", esc(&cx.dpath(did))), ("variants", arr(&vs))]));
             }
         }
-        let out = obj(&[("crate", esc(&krate)), ("mode", esc("G")), ("bodies", arr(&bodies)), ("adts", arr(&adts)), ("impls", arr(&impls))]);
+        // statics, unsafe code, crate features, field attributes
+        let mut statics = Vec::new();
+        let mut unsafes = Vec::new();
+        let mut attrs = Vec::new();
+        let penv = TypingEnv::fully_monomorphized();
+        for ldid in tcx.hir_crate_items(()).definitions() {
+            let did = ldid.to_def_id();
+            match tcx.def_kind(did) {
+                DefKind::Static { mutability, nested, .. } => {
+                    let t = tcx.type_of(did).instantiate_identity().skip_norm_wip();
+                    statics.push(obj(&[
+                        ("path", esc(&tcx.def_path_str(did))),
+                        ("mutable", format!("{}", mutability.is_mut())),
+                        ("nested", format!("{}", nested)),
+                        ("ty", cx.ty(t)),
+                        ("freeze", format!("{}", t.is_freeze(tcx, penv))),
+                        ("thread_local", format!("{}", tcx.is_thread_local_static(did))),
+                        ("span", cx.span(tcx.def_span(did))),
+                    ]));
+                }
+                DefKind::Fn | DefKind::AssocFn => {
+                    if tcx.fn_sig(did).skip_binder().safety().is_unsafe() {
+                        unsafes.push(obj(&[("kind", esc("unsafe fn")), ("path", esc(&tcx.def_path_str(did))), ("span", cx.span(tcx.def_span(did)))]));
+                    }
+                }
+                DefKind::Impl { of_trait: true } => {
+                    if tcx.impl_trait_header(did).safety.is_unsafe() && !tcx.def_span(did).from_expansion() {
+                        unsafes.push(obj(&[("kind", esc("unsafe impl")), ("path", esc(&tcx.def_path_str(did))), ("span", cx.span(tcx.def_span(did)))]));
+                    }
+                }
+                _ => {}
+            }
+        }
+        {
+            use rustc_hir::intravisit::{self, Visitor};
+            struct V<'a, 'tcx> {
+                cx: &'a Cx<'tcx>,
+                out: &'a mut Vec<String>,
+                owner: String,
+            }
+            impl<'a, 'tcx> Visitor<'tcx> for V<'a, 'tcx> {
+                fn visit_block(&mut self, b: &'tcx rustc_hir::Block<'tcx>) {
+                    if let rustc_hir::BlockCheckMode::UnsafeBlock(rustc_hir::UnsafeSource::UserProvided) = b.rules {
+                        if !b.span.from_expansion() {
+                            self.out.push(obj(&[("kind", esc("unsafe block")), ("path", esc(&self.owner)), ("span", self.cx.span(b.span))]));
+                        }
+                    }
+                    intravisit::walk_block(self, b);
+                }
+            }
+            for owner in tcx.hir_body_owners() {
+                let body = tcx.hir_body_owned_by(owner);
+                let mut v = V { cx: &cx, out: &mut unsafes, owner: tcx.def_path_str(owner.to_def_id()) };
+                v.visit_body(body);
+            }
+        }
+        for ldid in tcx.hir_crate_items(()).definitions() {
+            let did = ldid.to_def_id();
+            if matches!(tcx.def_kind(did), DefKind::Field | DefKind::Struct | DefKind::Enum | DefKind::Variant) {
+                for a in tcx.get_all_attrs(did) {
+                    let s = format!("{:?}", a);
+                    if s.contains("serde") {
+                        attrs.push(obj(&[("item", esc(&tcx.def_path_str(did))), ("kind", esc(&format!("{:?}", tcx.def_kind(did)))), ("attr", esc(&s.chars().take(400).collect::<String>()))]));
+                    }
+                }
+            }
+        }
+        let features: Vec<String> = tcx.features().enabled_features().iter().map(|f| esc(f.as_str())).collect();
+        let out = obj(&[
+            ("crate", esc(&krate)),
+            ("mode", esc("G")),
+            ("bodies", arr(&bodies)),
+            ("adts", arr(&adts)),
+            ("impls", arr(&impls)),
+            ("statics", arr(&statics)),
+            ("unsafes", arr(&unsafes)),
+            ("serde_attrs", arr(&attrs)),
+            ("features", arr(&features)),
+        ]);
         let path = format!("{}/g-{}.json", outdir, std::env::var("OPQ_TAG").unwrap_or_else(|_| "all".into()));
         std::fs::write(&path, compress_typenum(&out)).unwrap();
         let mut s = String::new();
